@@ -233,7 +233,12 @@ class DictView(View):
         return z3.Select(d_dom(self.t, self.z), zof(k))
 
     def __getitem__(self, k):
-        return wrap(self.st, SV(self.t.val, z3.Select(d_val(self.t, self.z), zof(k))), self.side)
+        k = zof(k)
+        z = z3.Select(d_val(self.t, self.z), k)
+        if isinstance(self.t.val, TRef):
+            # heap closure: dict values are NULL or allocated objects
+            self.side.append(z3.Implies(z3.Select(d_dom(self.t, self.z), k), z3.Or(z == NULL, z3.Select(self.st.alloc, z))))
+        return wrap(self.st, SV(self.t.val, z), self.side)
 
     def raw(self, k):
         return z3.Select(d_val(self.t, self.z), zof(k))
